@@ -318,6 +318,22 @@ def _run_shard(spec, ctx):
                 check_source(ctx, b'x=' + q + (b'\\%d' % b1) + b'7' + q + b'\n', 'string') if b1 < 26 else None
                 check_source(ctx, b'x=' + q + (b'\\%03d' % b1) + b'7' + q + b'\n', 'string')
                 check_source(ctx, b'x=' + q + (b'\\x%02x' % b1) + b'7' + q + b'\n', 'string')
+        # two literals in one source: what ends the first (an escape, `\z` and the blanks it skips, an escaped quote, a line
+        # continuation) must not reach into the second (which begins with blanks, a quote, a backslash, a digit)
+        ends = (b'\\z', b'\\z  ', b'\\z \t', b'\\z\n   ', b'x\\z\n', b'\\\\', b'\\"', b"\\'", b'\\0', b'\\14', b'\\x0', b'\\\n', b'a\\z', b'\\n', b'')
+        starts = (b'  two', b'\ttwo', b' ', b'\\"x', b'\\\\', b'7', b'\\z  x', b'', b'  ')
+        for q1 in (b'"', b"'"):
+            for q2 in (b'"', b"'"):
+                for e_ in ends:
+                    for st_ in starts:
+                        if (e_ == b'\\x0' or e_ == b'\\"' and q1 == b"'" and False):
+                            continue
+                        for between in (b' b=', b'\nb=', b' .. '):
+                            src = b'a=' + q1 + b'one' + e_ + q1 + between + q2 + st_ + q2 + b'\n'
+                            from .. import reflex as _rx
+                            if _rx.try_lex(src)[1] is None:
+                                check_source(ctx, src, 'string')
+                                ctx.feature('two_literals_in_one_source')
         ctx.sample({'string_source': b'x="A\\0009a"'})
         # every byte that may begin a name as the very first byte of the source, and multi-byte heads that other text encodings use
         # as markers (EF BB BF, FE FF, FF FE): in P8SCII they are ordinary glyph characters
